@@ -53,13 +53,13 @@ func vC37_errOf(i int) error {
 	case 0:
 		return &gerrors.PanicError{}
 	case 1:
-		return &runtime.PanicNilError{}
-	case 2:
 		return &gerrors.InternalError{}
-	case 3:
-		return &supervisor.VC37Custom1{}
-	default:
+	case 2:
 		return supervisor.VC37Custom2{}
+	case 3:
+		return &runtime.PanicNilError{}
+	default:
+		return &supervisor.VC37Custom1{}
 	}
 }
 
@@ -74,10 +74,18 @@ func vC37_supervisor() {
 	withRetry := vNondetBool("withRetry")
 	maxRetries := vNondetUint32("maxRetries")
 	timeout := time.Duration(vNondetInt64("timeout"))
-	nDir := vChoose("directives", 3)
-	e1, e2 := vChoose("errorType1", 5), vChoose("errorType2", 5)
+	// the SHAPE of the rule set (any-error or not, 0..2 typed rules, which error types) is split into one job per shape;
+	// everything else stays symbolic. shape = withAny + 2*k, k = 0 | 1+e1 | 1+T+e1*T+e2 over T = vCase("types") error types
+	shape, T := vCase("shape"), vCase("types")
+	withAny := shape%2 == 1
+	k := shape / 2
+	nDir, e1, e2 := 0, 0, 0
+	if k >= 1+T {
+		nDir, e1, e2 = 2, (k-1-T)/T, (k-1-T)%T
+	} else if k >= 1 {
+		nDir, e1 = 1, k-1
+	}
 	d1, d2 := vC37_directive("directive1"), vC37_directive("directive2")
-	withAny := vNondetBool("withAnyError")
 	dAny := vC37_directive("anyDirective")
 	withBackoff := vNondetBool("withBackoff")
 	initial, maxDelay, resetAfter := time.Duration(vNondetInt64("initialDelay")), time.Duration(vNondetInt64("maxDelay")), time.Duration(vNondetInt64("resetAfter"))
@@ -86,16 +94,11 @@ func vC37_supervisor() {
 	if withRetry {
 		opts = append(opts, supervisor.WithRetry(maxRetries, timeout))
 	}
-	// the error types are dispatched over their domain so that the directive map is keyed by concrete type names
-	for c := 0; c < 5; c++ {
-		if nDir >= 1 && e1 == c {
-			opts = append(opts, supervisor.WithDirective(vC37_errOf(c), d1))
-		}
+	if nDir >= 1 {
+		opts = append(opts, supervisor.WithDirective(vC37_errOf(e1), d1))
 	}
-	for c := 0; c < 5; c++ {
-		if nDir >= 2 && e2 == c {
-			opts = append(opts, supervisor.WithDirective(vC37_errOf(c), d2))
-		}
+	if nDir >= 2 {
+		opts = append(opts, supervisor.WithDirective(vC37_errOf(e2), d2))
 	}
 	if withAny {
 		opts = append(opts, supervisor.WithAnyErrorDirective(dAny))
